@@ -20,9 +20,9 @@ import (
 func init() { register("C07", c07Scenarios) }
 
 type c07Op struct {
-	Kind   string // call, dupbatch, cancel, open, stop, basectx
+	Kind   string // call, dupbatch, mixbatch, cancel, open, stop, basectx
 	ID     string
-	Method string // slow, fast, err, nope, rpc
+	Method string // slow, fast, err, nope, rpc; mixbatch: "<mate>,<pos>": the batch holds a slow call with ID and a mate call (fast or nope) with the other id, mate first (pos 0) or second (pos 1)
 }
 
 func (o c07Op) String() string {
@@ -31,11 +31,29 @@ func (o c07Op) String() string {
 		return fmt.Sprintf("call(%s,%s)", o.ID, o.Method)
 	case "dupbatch":
 		return fmt.Sprintf("batch[call(%s),call(%s)]", o.ID, o.ID)
+	case "mixbatch":
+		mate, pos := mixParts(o.Method)
+		if pos == "0" {
+			return fmt.Sprintf("batch[call(%s,%s),call(%s,slow)]", otherID(o.ID), mate, o.ID)
+		}
+		return fmt.Sprintf("batch[call(%s,slow),call(%s,%s)]", o.ID, otherID(o.ID), mate)
 	}
 	return fmt.Sprintf("%s(%s)", o.Kind, o.ID)
 }
 
 var c07Methods = []string{"slow", "fast", "err", "nope", "rpc"}
+
+func otherID(id string) string {
+	if id == "1" {
+		return "2"
+	}
+	return "1"
+}
+
+func mixParts(m string) (mate, pos string) {
+	i := strings.IndexByte(m, ',')
+	return m[:i], m[i+1:]
+}
 
 type c07Assigner struct{ h jrpc2.Handler }
 
@@ -99,6 +117,13 @@ func c07History(first c07Op, length int, withStop bool, b Bounds) *Scenario {
 						for _, id := range []string{"1", "2"} {
 							cands = append(cands, c07Op{"dupbatch", id, "fast"})
 						}
+						for _, id := range []string{"1", "2"} {
+							for _, mate := range []string{"fast", "nope"} {
+								for _, pos := range []string{"0", "1"} {
+									cands = append(cands, c07Op{"mixbatch", id, mate + "," + pos})
+								}
+							}
+						}
 						for _, id := range []string{"1", "2", "3"} {
 							cands = append(cands, c07Op{"cancel", id, ""})
 						}
@@ -126,6 +151,15 @@ func c07History(first c07Op, length int, withStop bool, b Bounds) *Scenario {
 							peer.Send([]byte(fmt.Sprintf(`{"jsonrpc":"2.0","id":%s,"method":%q}`, op.ID, mname)))
 						case "dupbatch":
 							peer.Send([]byte(fmt.Sprintf(`[{"jsonrpc":"2.0","id":%s,"method":"fast%da"},{"jsonrpc":"2.0","id":%s,"method":"fast%db"}]`, op.ID, step, op.ID, step)))
+						case "mixbatch":
+							mate, pos := mixParts(op.Method)
+							slowJ := fmt.Sprintf(`{"jsonrpc":"2.0","id":%s,"method":"slow%d"}`, op.ID, step)
+							mateJ := fmt.Sprintf(`{"jsonrpc":"2.0","id":%s,"method":"%s%d"}`, otherID(op.ID), mate, step)
+							if pos == "0" {
+								peer.Send([]byte("[" + mateJ + "," + slowJ + "]"))
+							} else {
+								peer.Send([]byte("[" + slowJ + "," + mateJ + "]"))
+							}
 						case "cancel":
 							srv.CancelRequest(op.ID)
 						case "open":
@@ -171,6 +205,11 @@ func c07Check(x *vs.Exec) []Viol {
 		cancelled bool // a justified cancellation cause has occurred
 	}
 	inflight := map[string]*inv{} // reference model: id -> running slow invocation
+	// ids of batch members whose own work is finished (or that had no handler) but whose reply is
+	// held back until a slow batch-mate finishes: whether such an id counts as in flight is not
+	// specified (the call's reply has not been sent yet), so either answer is accepted for them
+	limbo := map[string]string{} // id -> id of the slow mate it waits for
+	inBatch := map[string]bool{}  // id of a running slow call that is a member of a two-member batch
 	globalCancel := false         // Stop or base context end: every later observation may be cancelled
 	stopped := false
 	// split the log into windows [op k, quiet k]
@@ -224,12 +263,69 @@ func c07Check(x *vs.Exec) []Viol {
 		}
 		desc := fmt.Sprintf("step %s %s(%s,%s) with ids in flight {%s}", step, kind, id, method, sortedKeys())
 		switch kind {
+		case "mixbatch":
+			if stopped || globalCancel {
+				// only bookkeeping: which slow invocations started
+				if entered("slow"+step) == 1 && inflight[id] == nil {
+					inflight[id] = &inv{method: "slow" + step, cancelled: true}
+					inBatch[id] = true
+				}
+				continue
+			}
+			if _, lim := limbo[id]; lim && inflight[id] == nil {
+				// the slow member reuses an id whose earlier reply is still held back: unspecified window
+				if entered("slow"+step) == 1 {
+					inflight[id] = &inv{method: "slow" + step}
+					inBatch[id] = true
+				}
+				continue
+			}
+			mid := otherID(id)
+			slowDup := inflight[id] != nil
+			_, mateLimbo := limbo[mid]
+			mateDup := inflight[mid] != nil
+			Hit("C07.R1")
+			switch {
+			case slowDup && (mateDup || mateLimbo):
+				// nothing runs for certain only if the mate is rejected too; judged loosely
+			case slowDup:
+				// the slow member is rejected; the mate runs alone and the batch is answered at once
+				if len(outs) != 2 {
+					v = append(v, Viol{"C07.R1", desc + ": expected one reply array with both members, got " + strings.Join(outRaw, " ")})
+				}
+				for _, o := range outs {
+					if o.ID() == id && !isDupErr(o) {
+						v = append(v, Viol{"C07.R1", desc + ": the member reusing in-flight id " + id + " was not rejected: " + string(o.Raw)})
+					}
+				}
+				if entered("slow"+step) != 0 {
+					v = append(v, Viol{"C07.R1", desc + ": handler ran for a request with an id that is in flight"})
+				}
+			default:
+				// the slow member starts; the reply of the whole batch is held back
+				if entered("slow"+step) != 1 || len(outs) != 0 {
+					v = append(v, Viol{"C07.R2", desc + ": expected the slow member to start and no reply yet, got " + strings.Join(outRaw, " ")})
+				}
+				inflight[id] = &inv{method: "slow" + step, cancelled: false}
+				inBatch[id] = true
+				if !mateDup {
+					limbo[mid] = id
+				}
+			}
+			_ = mateLimbo
 		case "call":
 			mname := fmt.Sprintf("%s%s", method, step)
 			if method == "rpc" {
 				mname = "rpc.x" + step
 			}
 			if stopped {
+				continue
+			}
+			if _, lim := limbo[id]; lim && inflight[id] == nil {
+				// unspecified window: accepted or rejected; if a slow call was accepted it is now in flight
+				if method == "slow" && entered(mname) == 1 {
+					inflight[id] = &inv{method: mname, cancelled: globalCancel}
+				}
 				continue
 			}
 			if inflight[id] != nil {
@@ -307,11 +403,25 @@ func c07Check(x *vs.Exec) []Viol {
 				continue
 			}
 			delete(inflight, id)
+			hadMate := inBatch[id]
+			delete(inBatch, id)
+			for m, s := range limbo {
+				if s == id {
+					delete(limbo, m)
+					hadMate = true
+				}
+			}
 			if stopped {
 				continue
 			}
 			Hit("C07.R2")
-			if len(outs) != 1 || outs[0].ID() != id || !outs[0].Has("result") {
+			found := false
+			for _, o := range outs {
+				if o.ID() == id && o.Has("result") {
+					found = true
+				}
+			}
+			if !found || (!hadMate && len(outs) != 1) {
 				v = append(v, Viol{"C07.R2", desc + ": expected the reply of the released call, got " + strings.Join(outRaw, " ")})
 			}
 		case "stop":
@@ -357,7 +467,7 @@ func c07Check(x *vs.Exec) []Viol {
 		q := x.Log[w.to]
 		if q.Arg(2) == "true" && !stopped {
 			Hit("C07.R5")
-			if q.Arg(1) != sortedKeys() {
+			if q.Arg(1) != sortedKeys() && !limboExplains(q.Arg(1), inflight2ids(sortedKeys()), limbo) {
 				v = append(v, Viol{"C07.R5", fmt.Sprintf("after %s: reserved ids {%s}, but the calls in flight are {%s}", desc, q.Arg(1), sortedKeys())})
 			}
 		}
@@ -369,6 +479,34 @@ func c07Check(x *vs.Exec) []Viol {
 		}
 	}
 	return v
+}
+
+func inflight2ids(s string) map[string]bool {
+	out := map[string]bool{}
+	for _, k := range strings.Split(s, ",") {
+		if k != "" {
+			out[k] = true
+		}
+	}
+	return out
+}
+
+// limboExplains: the reserved set equals the in-flight set plus any subset of the ids in limbo.
+func limboExplains(reserved string, inflight map[string]bool, limbo map[string]string) bool {
+	res := inflight2ids(reserved)
+	for k := range inflight {
+		if !res[k] {
+			return false
+		}
+	}
+	for k := range res {
+		if !inflight[k] {
+			if _, ok := limbo[k]; !ok {
+				return false
+			}
+		}
+	}
+	return true
 }
 
 func isDupErr(m RMsg) bool {
@@ -391,6 +529,7 @@ func c07Scenarios(tier string) []*Scenario {
 			firsts = append(firsts, c07Op{"call", id, m})
 		}
 		firsts = append(firsts, c07Op{"dupbatch", id, "fast"}, c07Op{"cancel", id, ""})
+		firsts = append(firsts, c07Op{"mixbatch", id, "nope,0"}, c07Op{"mixbatch", id, "fast,1"})
 	}
 	if tier == "quick" {
 		for _, f := range firsts {
